@@ -14,6 +14,7 @@ import opendsm.eemeter.models.billing.data as bd
 import opendsm.eemeter.models.daily.data as dd
 from symv import engine as E
 from symv.carriers import patched
+from symv import fpfacts as FPF
 from symv.case import Case, close
 from symv.proxies import NAN, SReal, is_nan, lift, model_env, real, to_real
 from symv.symarray import SymArray, cells
@@ -53,6 +54,8 @@ def cases(tier, seed):
     out.append("series-06|US/Pacific|30|daily")
     if tier != "thorough":  # a 25-hour day in the quick tier as well
         out += ["frame|Europe/London|60|daily", "series-06|Europe/London|60|daily"]
+    if tier == "thorough":
+        out.append("fp|half|x" + ("|x" if True else ""))
     return out
 
 
@@ -163,10 +166,12 @@ def replay_temp(inp):
     return bool(pr), "; ".join(pr[:3])
 
 
-REPLAY = {"temp": replay_temp}
+REPLAY = {"temp": replay_temp, "fp_half": FPF.replay_half}
 
 
 def run_case(case: Case, name: str):
+    if name.startswith("fp|"):
+        return FPF.half_lemma(case, 100, "present/(present+absent) readings of a meter day")
     entry, zone, feed, fam = name.split("|")
     days = 4 if case.tier == "thorough" else 3
     idx0 = feed_index(zone, feed, days)
